@@ -1,6 +1,8 @@
 import CedarVerif.Cedar.Ext
 import CedarVerif.Lemmas.ExtDecimal
 import CedarVerif.Lemmas.ExtDuration
+import CedarVerif.Lemmas.ExtDatetime
+import CedarVerif.Lemmas.ExtIP
 /-
 C07 — Extension types (decimal, ip, datetime, duration) compute exact results.
 Property theorems about the mirrors in `Cedar/Ext.lean`.
@@ -184,6 +186,181 @@ example : Duration.parse "1d2h3m4s5ms" = some 93784005 ∧ Duration.parse "-9223
 example : Duration.WF (some "1".toList) none (some "30".toList) none (some "7".toList) ∧
     durationExact true (some "1".toList) none (some "30".toList) none (some "7".toList) = -88200007 ∧
     String.ofList (Duration.render true (some "1".toList) none (some "30".toList) none (some "7".toList)) = "-1d30m7ms" := by
+  decide +kernel
+
+/-! ## datetime / duration methods -/
+
+/-- **toDate is the floor to a day boundary.** For every i64 epoch `t`: the result is `⌊t / day⌋ · day` when that is
+    an i64 and an error otherwise (`t` within the first partial day above `i64::MIN`); a result `d` satisfies
+    `d ≤ t < d + 86400000`, is a multiple of a day, and is an i64 — also for negative epochs. -/
+theorem toDate_floor (t : Int) :
+    Datetime.toDate t =
+      (if inI64 (t / 86400000 * 86400000) then some (t / 86400000 * 86400000) else none) ∧
+    (∀ d, Datetime.toDate t = some d → d ≤ t ∧ t < d + 86400000 ∧ d % 86400000 = 0 ∧ inI64 d = true) ∧
+    (inI64 t = true → (Datetime.toDate t = none ↔ t / 86400000 * 86400000 < i64Min)) := by
+  have h0 : Datetime.toDate t =
+      (if inI64 (t / 86400000 * 86400000) then some (t / 86400000 * 86400000) else none) := by
+    rw [Datetime.toDate_eq]; rfl
+  refine ⟨h0, ?_, ?_⟩
+  · intro d hd
+    rw [h0] at hd
+    by_cases hin : inI64 (t / 86400000 * 86400000) = true
+    · rw [if_pos hin] at hd; cases hd
+      exact ⟨by omega, by omega, by omega, hin⟩
+    · rw [if_neg hin] at hd; cases hd
+  · intro ht
+    rw [h0]
+    rw [inI64_iff] at ht
+    have e : i64Min = -9223372036854775808 := rfl
+    rw [e]
+    by_cases hin : inI64 (t / 86400000 * 86400000) = true
+    · rw [if_pos hin]; rw [inI64_iff] at hin
+      constructor
+      · intro h; cases h
+      · intro h; omega
+    · rw [if_neg hin]
+      have hin' : inI64 (t / 86400000 * 86400000) = false := by simpa using hin
+      rw [inI64_false_iff] at hin'
+      constructor
+      · intro _; omega
+      · intro _; rfl
+
+example : Datetime.toDate (-1) = some (-86400000) ∧ Datetime.toDate 86399999 = some 0 ∧
+    Datetime.toDate (-86400000) = some (-86400000) ∧ Datetime.toDate (-9223372036854775808) = none ∧
+    Datetime.toDate 9223372036854775807 = some 9223372036828800000 := by decide +kernel
+
+/-- **toTime is the Euclidean remainder modulo a day**: `0 ≤ toTime t < 86400000` and `t - toTime t` is a multiple
+    of a day, for negative epochs too (the Rust code distinguishes the sign and uses the truncated `%`). -/
+theorem toTime_range (t : Int) :
+    Datetime.toTime t = t % 86400000 ∧ 0 ≤ Datetime.toTime t ∧ Datetime.toTime t < 86400000 ∧
+    (t - Datetime.toTime t) % 86400000 = 0 ∧ t - Datetime.toTime t = t / 86400000 * 86400000 := by
+  rw [Datetime.toTime_eq_emod]
+  refine ⟨rfl, ?_, ?_, ?_, ?_⟩ <;> omega
+
+/-- `toDate` and `toTime` split an epoch: date part + time part = the epoch -/
+theorem toDate_add_toTime (t d : Int) (h : Datetime.toDate t = some d) : d + Datetime.toTime t = t := by
+  have h0 := (toDate_floor t).1
+  rw [h0] at h
+  rw [Datetime.toTime_eq_emod]
+  by_cases hin : inI64 (t / 86400000 * 86400000) = true
+  · rw [if_pos hin] at h; cases h; omega
+  · rw [if_neg hin] at h; cases h
+
+example : Datetime.toTime (-1) = 86399999 ∧ Datetime.toTime (-86400000) = 0 ∧ Datetime.toTime 86400001 = 1 ∧
+    Datetime.toTime (-9223372036854775808) = 60424192 := by decide +kernel
+
+/-- **toSeconds … toDays divide with truncation toward zero.** The nested truncating divisions of the Rust code
+    (`to_minutes = to_seconds / 60`, …) equal one truncating division by the product, and that quotient `q`
+    satisfies `q·n ≤ d < (q+1)·n` for `d ≥ 0` and `(q-1)·n < d ≤ q·n` for `d ≤ 0`. -/
+theorem toX_truncating (d : Int) :
+    callExt1 "toMilliseconds" (.ext (.duration d)) = .ok (vint d) ∧
+    callExt1 "toSeconds" (.ext (.duration d)) = .ok (vint (Int.tdiv d 1000)) ∧
+    callExt1 "toMinutes" (.ext (.duration d)) = .ok (vint (Int.tdiv d 60000)) ∧
+    callExt1 "toHours" (.ext (.duration d)) = .ok (vint (Int.tdiv d 3600000)) ∧
+    callExt1 "toDays" (.ext (.duration d)) = .ok (vint (Int.tdiv d 86400000)) ∧
+    (∀ n : Int, 0 < n →
+      (0 ≤ d → Int.tdiv d n * n ≤ d ∧ d < (Int.tdiv d n + 1) * n) ∧
+      (d ≤ 0 → (Int.tdiv d n - 1) * n < d ∧ d ≤ Int.tdiv d n * n)) := by
+  have e2 : Int.tdiv (Int.tdiv d 1000) 60 = Int.tdiv d 60000 := Datetime.tdiv_tdiv d 1000 60 (by decide) (by decide)
+  have e3 : Int.tdiv (Int.tdiv d 60000) 60 = Int.tdiv d 3600000 := Datetime.tdiv_tdiv d 60000 60 (by decide) (by decide)
+  have e4 : Int.tdiv (Int.tdiv d 3600000) 24 = Int.tdiv d 86400000 :=
+    Datetime.tdiv_tdiv d 3600000 24 (by decide) (by decide)
+  refine ⟨rfl, rfl, ?_, ?_, ?_, fun n hn => Datetime.tdiv_trunc d n hn⟩
+  · show Except.ok (vint (Int.tdiv (Int.tdiv d 1000) 60)) = _
+    rw [e2]
+  · show Except.ok (vint (Int.tdiv (Int.tdiv (Int.tdiv d 1000) 60) 60)) = _
+    rw [e2, e3]
+  · show Except.ok (vint (Int.tdiv (Int.tdiv (Int.tdiv (Int.tdiv d 1000) 60) 60) 24)) = _
+    rw [e2, e3, e4]
+
+example : callExt1 "toMinutes" (.ext (.duration (-119999))) = .ok (vint (-1)) ∧
+    callExt1 "toDays" (.ext (.duration (-86399999))) = .ok (vint 0) ∧
+    callExt1 "toSeconds" (.ext (.duration 1999)) = .ok (vint 1) := by
+  refine ⟨rfl, rfl, rfl⟩
+
+/-! ## calendar -/
+
+/-- `daysFromCivil` is the day count of the proleptic Gregorian calendar: it is 0 at 1970-01-01 … -/
+theorem daysFromCivil_epoch : Datetime.daysFromCivil 1970 1 1 = 0 := Datetime.daysFromCivil_epoch
+
+/-- … and the next valid civil day (end of month / leap February / end of year handled by `nextDay`) is valid and has
+    day number exactly one larger. Together with `daysFromCivil_epoch` this determines the function on all valid
+    dates from 0000-01-01 on. -/
+theorem daysFromCivil_consecutive (y m d : Nat) (h : Datetime.dateOk y m d = true) :
+    Datetime.dateOk (Datetime.nextDay y m d).1 (Datetime.nextDay y m d).2.1 (Datetime.nextDay y m d).2.2 = true ∧
+    Datetime.daysFromCivil (Datetime.nextDay y m d).1 (Datetime.nextDay y m d).2.1 (Datetime.nextDay y m d).2.2 =
+      Datetime.daysFromCivil y m d + 1 :=
+  Datetime.daysFromCivil_nextDay y m d h
+
+/-- `daysFromCivil` is strictly monotone in (y, m, d) (lexicographic) over valid dates -/
+theorem daysFromCivil_strictMono (y1 m1 d1 y2 m2 d2 : Nat)
+    (ok1 : Datetime.dateOk y1 m1 d1 = true) (ok2 : Datetime.dateOk y2 m2 d2 = true)
+    (hlt : Datetime.dateLt y1 m1 d1 y2 m2 d2) :
+    Datetime.daysFromCivil y1 m1 d1 < Datetime.daysFromCivil y2 m2 d2 := by
+  rw [Datetime.daysFromCivil_eq, Datetime.daysFromCivil_eq]
+  have hl := Datetime.lex_internal y1 m1 d1 y2 m2 d2 ok1 ok2 hlt
+  have b1 := Datetime.doy_bounds y1 m1 d1 ok1
+  have b2 := Datetime.doy_bounds y2 m2 d2 ok2
+  have hy : -1 ≤ Datetime.internalYear y1 m1 := by unfold Datetime.internalYear; split <;> omega
+  have := Datetime.internal_lt _ _ _ _ hy b1.2 b2.1 hl
+  omega
+
+example : Datetime.nextDay 2024 2 28 = (2024, 2, 29) ∧ Datetime.nextDay 2023 2 28 = (2023, 3, 1) ∧
+    Datetime.nextDay 1900 2 28 = (1900, 3, 1) ∧ Datetime.nextDay 2000 2 29 = (2000, 3, 1) ∧
+    Datetime.nextDay 1999 12 31 = (2000, 1, 1) ∧ Datetime.dateOk 2024 2 29 = true ∧
+    Datetime.daysFromCivil 2024 2 29 = 19782 ∧ Datetime.daysFromCivil 0 1 1 = -719528 ∧
+    Datetime.dateLt 1999 12 31 2000 1 1 := by decide +kernel
+
+/-! ## ip ranges -/
+
+/-- network ≤ addr ≤ broadcast -/
+theorem network_le_addr_le_broadcast (v6 : Bool) (addr pl : Nat) :
+    IPAddr.network v6 addr pl ≤ addr ∧ addr ≤ IPAddr.broadcast v6 addr pl :=
+  ⟨IPAddr.network_le v6 addr pl, IPAddr.le_broadcast v6 addr pl⟩
+
+/-- the address interval `[network, broadcast]` is exactly the CIDR block (the addresses sharing the first `pl` bits) -/
+theorem block_eq_interval (v6 : Bool) (addr pl x : Nat) :
+    IPAddr.inBlock v6 addr pl x ↔ IPAddr.network v6 addr pl ≤ x ∧ x ≤ IPAddr.broadcast v6 addr pl :=
+  IPAddr.inBlock_iff v6 addr pl x
+
+/-- **isInRange** holds iff both values are of the same family and the child's address interval is contained in the
+    parent's (stated both with the intervals and with the CIDR blocks) -/
+theorem isInRange_spec (v6a : Bool) (a pa : Nat) (v6b : Bool) (b pb : Nat) :
+    (IPAddr.isInRange v6a a pa v6b b pb = true ↔
+      v6a = v6b ∧ ∀ x, (IPAddr.network v6a a pa ≤ x ∧ x ≤ IPAddr.broadcast v6a a pa) →
+                       (IPAddr.network v6b b pb ≤ x ∧ x ≤ IPAddr.broadcast v6b b pb)) ∧
+    (IPAddr.isInRange v6a a pa v6b b pb = true ↔
+      v6a = v6b ∧ ∀ x, IPAddr.inBlock v6a a pa x → IPAddr.inBlock v6b b pb x) := by
+  have key : IPAddr.isInRange v6a a pa v6b b pb = true ↔
+      v6a = v6b ∧ ∀ x, (IPAddr.network v6a a pa ≤ x ∧ x ≤ IPAddr.broadcast v6a a pa) →
+                       (IPAddr.network v6b b pb ≤ x ∧ x ≤ IPAddr.broadcast v6b b pb) := by
+    simp only [IPAddr.isInRange, Bool.and_eq_true, beq_iff_eq, decide_eq_true_eq]
+    have hnb := IPAddr.network_le_broadcast v6a a pa
+    constructor
+    · rintro ⟨⟨h1, h2⟩, h3⟩
+      exact ⟨h1, fun x hx => ⟨Nat.le_trans h2 hx.1, Nat.le_trans hx.2 h3⟩⟩
+    · rintro ⟨h1, h2⟩
+      exact ⟨⟨h1, (h2 _ ⟨Nat.le_refl _, hnb⟩).1⟩, (h2 _ ⟨hnb, Nat.le_refl _⟩).2⟩
+  refine ⟨key, ?_⟩
+  rw [key]
+  simp only [IPAddr.inBlock_iff]
+
+/-- the model's `/`-and-`*` network and broadcast equal the Rust bit-mask formulation
+    (`addr & MAX.checked_shl(w - p).unwrap_or(0)`, `addr | MAX.checked_shr(p).unwrap_or(0)`) -/
+theorem network_broadcast_bitmask (v6 : Bool) (addr pl : Nat) (ha : addr < 2 ^ IPAddr.width v6)
+    (hp : pl ≤ IPAddr.width v6) :
+    IPAddr.network v6 addr pl = addr &&& IPAddr.rustNetmask (IPAddr.width v6) pl ∧
+    IPAddr.broadcast v6 addr pl = addr ||| IPAddr.rustHostmask (IPAddr.width v6) pl :=
+  ⟨IPAddr.network_eq_and v6 addr pl ha hp, IPAddr.broadcast_eq_or v6 addr pl hp⟩
+
+-- 10.1.2.3/24 is in 10.1.0.0/16 and not vice versa; /0 contains everything; the masks for /0, /24, /32
+example : IPAddr.isInRange false 0x0a010203 24 false 0x0a010000 16 = true ∧
+    IPAddr.isInRange false 0x0a010000 16 false 0x0a010203 24 = false ∧
+    IPAddr.isInRange false 0x0a010203 32 false 0 0 = true ∧
+    IPAddr.isInRange false 0x0a010203 32 true 0 0 = false ∧
+    IPAddr.rustNetmask 32 0 = 0 ∧ IPAddr.rustNetmask 32 24 = 0xffffff00 ∧ IPAddr.rustNetmask 32 32 = 0xffffffff ∧
+    IPAddr.rustHostmask 32 0 = 0xffffffff ∧ IPAddr.rustHostmask 32 24 = 0xff ∧ IPAddr.rustHostmask 32 32 = 0 ∧
+    IPAddr.network false 0x0a010203 24 = 0x0a010200 ∧ IPAddr.broadcast false 0x0a010203 24 = 0x0a0102ff := by
   decide +kernel
 
 end Cedar.C07
